@@ -52,6 +52,10 @@ ErrsBetween(q, j, i) == Cardinality({k \in (j + 1)..(i - 1) : ~q[k].ok})
 Misses(q, maxErr) ==
     {i \in 2..Len(q) : LET j == PrevOK(q, i)
                        IN j # 0 /\ ErrsBetween(q, j, i) <= maxErr /\ q[i].t >= q[j].exp}
+\* the recording ended (peer still running) after the last good metric had expired: it was not renewed
+TailMiss(q, maxErr, end) ==
+    LET j == PrevOK(q, Len(q) + 1)
+    IN j # 0 /\ ErrsBetween(q, j, Len(q) + 1) <= maxErr /\ q[j].exp <= end
 \* attempts that came later than the transcription says, beyond the slack (scheduling delay, or a changed divisor)
 Nominal(q, i, ivl) ==
     IF q[i].kind = "ping" THEN ivl
